@@ -32,7 +32,12 @@ THEOREMS = [
     "slash_does_not_change_params",
 ]
 
-CTX = {"v": "val", "n": 3, "xs": [1, 2], "d": {"a": 1, "b": 2}, "s": "a b", "e": "", "t": True, "d2": {"b": 9, "c": 3}, "xs2": ["x"], "name": "N"}
+import collections as _collections
+import types as _types
+
+# `mp` / `cm`: mappings that are not dict subclasses (a `...` spread of them must still give keyword arguments)
+CTX = {"v": "val", "n": 3, "xs": [1, 2], "d": {"a": 1, "b": 2}, "s": "a b", "e": "", "t": True, "d2": {"b": 9, "c": 3}, "xs2": ["x"], "name": "N",
+       "mp": _types.MappingProxyType({"p": 1, "q": "z"}), "cm": _collections.ChainMap({"r": 2})}
 HOLDER: List[Any] = []
 
 # --- AST -------------------------------------------------------------------------------------------
@@ -84,7 +89,7 @@ def gen_dict(r, depth: int) -> dict:
     items = []
     for _ in range(r.randint(0, 3)):
         if r.random() < 0.25:
-            items.append({"t": "dspread", "of": r.choice([{"t": "leaf", "text": "d"}, {"t": "leaf", "text": "d2"}, gen_dict(r, depth + 2)])})
+            items.append({"t": "dspread", "of": r.choice([{"t": "leaf", "text": "d"}, {"t": "leaf", "text": "d2"}, {"t": "leaf", "text": "mp"}, gen_dict(r, depth + 2)])})
         else:
             key = r.choice([{"t": "str", "body": r.choice(["k", "a", "b", "x y"])}, {"t": "leaf", "text": "name"}, {"t": "leaf", "text": "n"}])
             items.append({"t": "pair", "key": key, "value": gen_value(r, depth + 1)})
@@ -100,7 +105,8 @@ def gen_args(r) -> List[dict]:
         if k < 0.22 and not used_kw and not agg_used:
             args.append({"t": "pos", "value": gen_value(r)})
         elif k < 0.34:
-            args.append({"t": "topspread", "of": r.choice([{"t": "leaf", "text": "xs"}, {"t": "leaf", "text": "d2"}, gen_list(r, 1), gen_dict(r, 1),
+            args.append({"t": "topspread", "of": r.choice([{"t": "leaf", "text": "xs"}, {"t": "leaf", "text": "d2"}, {"t": "leaf", "text": "mp"}, {"t": "leaf", "text": "cm"},
+                                                          gen_list(r, 1), gen_dict(r, 1),
                                                           {"t": "filter", "base": "xs", "chain": [("slice", {"t": "str", "body": ":1"})]}])})
         elif k < 0.46:
             outer = r.choice(["attrs", "opts"])
@@ -223,7 +229,10 @@ def stock_leaf(text: str, ctx) -> Any:
     if _parser[0] is None:
         eng = engines["django"].engine
         _parser[0] = Parser([], eng.template_libraries, eng.template_builtins)
-    return FilterExpression(text, _parser[0]).resolve(ctx)
+    v = FilterExpression(text, _parser[0]).resolve(ctx)
+    if isinstance(v, _collections.abc.Mapping) and not isinstance(v, dict):
+        v = dict(v)            # the denotation of a mapping is its key/value pairs, whatever its class
+    return v
 
 
 def denote_leaf(leaf: dict, ctx) -> Any:
@@ -304,6 +313,8 @@ def denote_args(args: List[dict], ctx) -> Tuple[list, dict, list]:
 
 
 def canon(x: Any) -> Any:
+    if isinstance(x, _collections.abc.Mapping) and not isinstance(x, dict):
+        x = dict(x)
     if isinstance(x, dict):
         return {"d": [[canon(k), canon(v)] for k, v in x.items()]}
     if isinstance(x, (list, tuple)):
